@@ -225,7 +225,16 @@ def check_doc(sv, d, kind, open_keys, stats, via='module'):
             {'in': lab(gi ^ (ei - un)), 'out': lab(go ^ (eo - un))}, bool(ei or eo), kk)
     if R[':indeterminate'] is not None:
         exp = {i for i in refhtml.expected_indeterminate(els) if i in html_els}
-        law(':indeterminate definition', R[':indeterminate'] == exp, {'extra': lab(R[':indeterminate'] - exp), 'missing': lab(exp - R[':indeterminate'])}, bool(exp))
+        # "or document, outside any form": with several top-level elements (lxml's rendering of nested <html>) it is not settled
+        # whether the document is the element's own top-level tree or everything the soup holds - named radios without a form
+        # owner are unspecified there
+        amb = set()
+        if len([c for c in d.contents if isinstance(c, bs4.Tag)]) > 1:
+            amb = {i for i, e in ID.items() if name(e) == 'input' and typ(e) == 'radio' and attr(e, 'name') and refhtml.owner(e) is None and
+                   isinstance(refhtml.docroot(e).parent, bs4.BeautifulSoup)}
+        got_i = R[':indeterminate'] - amb
+        exp -= amb
+        law(':indeterminate definition', got_i == exp, {'extra': lab(got_i - exp), 'missing': lab(exp - got_i)}, bool(exp))
     if R[':placeholder-shown'] is not None:
         exp, unspec = set(), set()
         for i, e in ID.items():
@@ -233,11 +242,11 @@ def check_doc(sv, d, kind, open_keys, stats, via='module'):
                 continue
             ph = attr(e, 'placeholder')
             if name(e) == 'textarea' and ph:
-                txt = ''.join(str(c) for c in e.contents if isinstance(c, bs4.NavigableString) and not isinstance(
+                # "no content": the text of the textarea, wherever the tree keeps it (html.parser and the bs4 API can hold
+                # child elements inside a textarea; their text is content too)
+                txt = ''.join(str(c) for c in e.descendants if isinstance(c, bs4.NavigableString) and not isinstance(
                     c, (bs4.Comment, bs4.CData, bs4.ProcessingInstruction, bs4.Declaration, bs4.Doctype)))
-                if any(isinstance(c, bs4.Tag) for c in e.contents):
-                    unspec.add(i)
-                elif txt == '':
+                if txt == '':
                     exp.add(i)
                 elif txt == '\n':
                     unspec.add(i)
